@@ -7,6 +7,10 @@
             valid UTF-8; P̂ wellFormed / sassFree / charsetOk evaluated by the Lean driver; the independent
             python CSS reader accepts it; FIXED POINT: recompiling the output as plain CSS and as SCSS,
             in both styles, succeeds and gives the same canonical rule list.
+(d) BYTES   the modelled UTF-8 encoder / validator (C05_output_valid_utf8, C05_charset_iff_bytes): grass's output
+            bytes == `serializeB` (= encodeUtf8 of the model text, finished by the byte-level `finish`) on every tie
+            case; `validUtf8` / `charsetOkB` evaluated by the Lean driver on the raw bytes of every output of the
+            direct oracle; byte-level `write_media_query` (`queryOutB`, the `(not ` slice) against grass.
 """
 import json
 
@@ -74,13 +78,44 @@ def _cfgs():
     return [(st, cs) for st in STYLES for cs in (True, False)]
 
 
+# spellings that replace the generator's `é` (byte level: 2-, 3- and 4-byte characters, combining marks) in
+# every position where the shared generator puts one: type selectors, custom-property names and values,
+# quoted / unquoted atoms, media features, @supports, at-rule parameters, import urls, comments, keyframe names
+UNI = ["é", "é", "e\u0301", "\U0001F600", "\U0001D4B3\u0308", "\u4e2d", "\u00df\u200d"]
+
+
+def unicodify(x, rng):
+    if isinstance(x, str):
+        return "".join(rng.choice(UNI) if ch == "é" else ch for ch in x) if "é" in x else x
+    if isinstance(x, tuple):
+        return tuple(unicodify(y, rng) for y in x)
+    if isinstance(x, list):
+        return [unicodify(y, rng) for y in x]
+    return x
+
+
+def byte_features(text):
+    f = set()
+    for ch in text:
+        o = ord(ch)
+        if o >= 0x10000:
+            f.add("4-byte(astral)")
+        elif o >= 0x800:
+            f.add("3-byte")
+        elif o >= 0x80:
+            f.add("2-byte")
+        if 0x300 <= o <= 0x36F or o == 0x200D:
+            f.add("combining/joiner")
+    return f
+
+
 def gen_tie_cases(ck, n):
     cases = [cc.tuplify(c) for c in CORPUS]
     rng = ck.rng
     for i in range(n):
         # the first 40% are "clean": unquoted atoms are CSS tokens only, so that the same sources can be
         # used by the direct oracle (quoted strings stay arbitrary)
-        cases.append(cc.gen_nodes(rng, ascii_only=rng.random() < 0.25, clean=i < 0.4 * n))
+        cases.append(unicodify(cc.gen_nodes(rng, ascii_only=rng.random() < 0.25, clean=i < 0.4 * n), rng))
     out = []
     n_clean = len(CORPUS) + int(0.4 * n)
     for i, nodes in enumerate(cases):
@@ -98,18 +133,21 @@ def tie(ck, pool, cases):
             jobs.append(compile_job(c["src"], style=st, syntax="scss", charset=cs))
             reqs.append(cc.print_request(st, cs, c["tree"]))
     ans = cc.run_jobs(pool, jobs)
-    outs = driver(reqs)
+    outs = driver(reqs + [r.replace("ser print ", "ser printb ", 1) for r in reqs])
+    outs, bouts = outs[:len(reqs)], outs[len(reqs):]
     k = 0
     for c in cases:
         c["out"] = {}
         feats = cc.tree_features(c["tree"])
+        bfeats = byte_features(json.dumps(c["tree"], ensure_ascii=False))
         nontrivial = len(feats - {"top:rule", "in:decl", "non-ascii"}) > 0
         for f in feats:
             ck.hist("tree:" + f)
         for st, cs in _cfgs():
-            a, o = ans[k], outs[k]
+            a, o, bo = ans[k], outs[k], bouts[k]
             k += 1
             key = ("tie", hexs(json.dumps(c["tree"], ensure_ascii=False)), st, cs)
+            bytes_tie(ck, c, st, cs, a, bo, bfeats)
             if not o.startswith("ok "):
                 ck.cov["unsupported_dropped"] += 1
                 continue
@@ -148,6 +186,80 @@ def tie(ck, pool, cases):
             a = c["out"].get((None, True)) or {}
             ck.sample({"kind": "tie", "source": c["src"], "grass_expanded": a.get("css")})
     reader_fixed_point(ck, pool, cases)
+
+
+def bytes_tie(ck, c, st, cs, a, bo, bfeats):
+    """(d): grass's output BYTES == serializeB of the model (modelled encoder + byte-level finish); the Lean
+    validator accepts them; the byte-level charset predicate holds and agrees with the bytes' own prefix."""
+    if not bo.startswith("ok ") or a.get("status") != "ok":
+        return
+    parts = bo.split(" ")
+    model = b"" if parts[1] == "-" else bytes.fromhex(parts[1])
+    try:
+        impl = a["css"].encode("utf-8")
+    except UnicodeError:
+        impl = None
+    ck.count(("bytes-tie", hexs(json.dumps(c["tree"], ensure_ascii=False)), st, cs), bool(bfeats))
+    hdr = "bom" if model.startswith(b"\xef\xbb\xbf") else "charset" if model.startswith(b'@charset "UTF-8";\n') else "none"
+    ck.hist("bytes:header=" + hdr)
+    for f in bfeats:
+        ck.hist("bytes:tree-has:" + f)
+    bad = None
+    if impl != model:
+        bad = "grass's output bytes differ from serializeB (modelled UTF-8 encoder + byte-level finish)"
+    elif parts[2:4] != ["1", "1"]:
+        bad = "model bytes fail validUtf8 or differ from encodeUtf8 of the model text (contradicts C05_output_valid_utf8)"
+    elif parts[4] != ("0" if hdr == "none" else "1") or parts[5] != "1":
+        bad = "byte-level charset predicate (hasCharsetOrBomB / charsetOkB) fails on the output bytes"
+    if bad:
+        ck.cov["model_disagreements"] += 1
+        if len(ck.disagreements) < 3:
+            ck.disagreements.append({"source": c["src"], "style": st or "expanded", "charset": cs, "what": bad,
+                                     "model_bytes": parts[1][:600], "impl_bytes": impl.hex()[:600] if impl is not None else None,
+                                     "flags": parts[2:]})
+    else:
+        ck.hist("bytes:tie-equal")
+
+
+def media_query_bytes(ck, pool, n):
+    """(d): byte-level `write_media_query` (queryOutB: prefix test and the `(not ` slice with BYTE indices) against
+    grass: `@media Q {a{b:c}}` rules, the bytes between `@media ` and ` {` must be queryOutB of the encoded query."""
+    rng = ck.rng
+    qs = [(None, None, ["(not (é: ✓))"], True), (None, "screen", ["(not (é))"], True), (None, None, ["(not (color))"], True),
+          (None, None, ["(not (a: é))"], True)]
+    while len(qs) < n:
+        q = cc.gen_query(rng)
+        if rng.random() < 0.3:
+            q = (None, rng.choice([None, "screen"]), [rng.choice(["(not (é: ✓))", "(not (é))", "(not (b: é é))", "(not (color))"])], True)
+        qs.append(q)
+    qs = [unicodify(q, rng) for q in qs]
+    B = 100
+    jobs = [compile_job("\n".join("@media " + cc.src_query(q) + " {a{b:c}}" for q in qs[off:off + B]) + "\n", style=None,
+                        syntax="scss", charset=False) for off in range(0, len(qs), B)]
+    ans = cc.run_jobs(pool, jobs)
+    lines = []
+    for a in ans:
+        lines += [l for l in (a.get("css") or "").split("\n") if l.startswith("@media ")] if a.get("status") == "ok" else []
+    if len(lines) != len(qs):
+        ck.cov["model_disagreements"] += 1
+        ck.disagreements.append({"what": "media-query probe: cannot read the @media lines back", "expected": len(qs), "got": len(lines),
+                                 "statuses": [a.get("status") for a in ans], "err": [(a.get("err") or {}).get("message") for a in ans][:3]})
+        return
+    outs = driver(["ser mqb " + " ".join(["q", cc._oh(m), cc._oh(t), cc._b(conj), str(len(cs))] + [hexs(c) for c in cs])
+                   for (m, t, cs, conj) in qs])
+    for q, line, o in zip(qs, lines, outs):
+        parts = o.split(" ")
+        slice_case = len(q[2]) == 1 and q[2][0].startswith("(not ")
+        ck.count(("media-query-bytes", json.dumps(q, ensure_ascii=False)), slice_case)
+        ck.hist("media-query-bytes:" + ("not-slice" if slice_case else "plain") +
+                (":non-ascii" if any(ord(ch) > 127 for ch in cc.src_query(q)) else ":ascii"))
+        want = line[len("@media "):-len(" {")].encode("utf-8")
+        got = None if parts[0] != "ok" else (b"" if parts[1] == "-" else bytes.fromhex(parts[1]))
+        if got != want or parts[2:4] != ["1", "1"]:
+            ck.cov["model_disagreements"] += 1
+            if len(ck.disagreements) < 3:
+                ck.disagreements.append({"what": "byte-level write_media_query (queryOutB) differs from grass", "query": q,
+                                         "grass": line, "model": o[:300]})
 
 
 def reader_fixed_point(ck, pool, cases):
@@ -227,7 +339,8 @@ def direct(ck, pool, progs, label, gate=False):
             continue
         for st, cs in _cfgs():
             css = p["a"][(st, cs)]["css"]
-            reqs += ["ser wf " + hexs(css), "ser sassfree " + hexs(css), f"ser charset {1 if cs else 0} " + hexs(css)]
+            reqs += ["ser wf " + hexs(css), "ser sassfree " + hexs(css), f"ser charset {1 if cs else 0} " + hexs(css),
+                     f"ser utf8 {1 if cs else 0} " + _raw_hex(css)]
             owner.append((i, st, cs))
         for st in STYLES:
             css = p["a"][(st, True)]["css"]
@@ -239,13 +352,21 @@ def direct(ck, pool, progs, label, gate=False):
     for k, (i, st, cs) in enumerate(owner):
         p = progs[i]
         css = p["a"][(st, cs)]["css"]
-        wf, sf, ch = outs[3 * k:3 * k + 3]
+        wf, sf, ch, u8 = outs[4 * k:4 * k + 4]
         cfg = f"{st or 'expanded'}/charset={cs}"
         ck.count((label, p["key"], st, cs), True)
         try:
             css.encode("utf-8")
         except UnicodeError:
             fails.append({"key": p["key"], "src": p["src"], "what": "output is not valid UTF-8", "cfg": cfg})
+        # the Lean validator / byte-level charset predicate on the output's raw bytes
+        ck.hist(f"{label}:lean-validUtf8:" + ("non-ascii" if any(ord(x) > 127 for x in css) else "ascii"))
+        if not u8.startswith("ok 1 "):
+            fails.append({"key": p["key"], "src": p["src"], "what": "output bytes are rejected by the Lean UTF-8 validator (validUtf8)",
+                          "cfg": cfg, "lean": u8, "output": css[:300]})
+        elif not u8.startswith("ok 1 1 "):
+            fails.append({"key": p["key"], "src": p["src"], "what": "@charset/BOM present <=> byte >= 0x80 and allowed: violated (bytes, charsetOkB)",
+                          "cfg": cfg, "lean": u8, "output": css[:300]})
         try:
             cssread.parse(css)
             rd = True
@@ -296,6 +417,13 @@ def direct(ck, pool, progs, label, gate=False):
         elif st == st2 and syn == "css":
             ck.hist(f"{label}:fixedpoint-identical-text" if a["css"] == css else f"{label}:fixedpoint-same-tree-different-text")
     return fails
+
+
+def _raw_hex(css):
+    """the output's bytes as they left the runner (lone surrogates, which python cannot encode, kept as CESU bytes so
+    that the Lean validator sees and rejects them)"""
+    b = css.encode("utf-8", "surrogatepass")
+    return b.hex() if b else "-"
 
 
 _STR = __import__("re").compile(r"""("(?:[^"\\\n]|\\.)*"|'(?:[^'\\\n]|\\.)*')|/\*.*?\*/""", __import__("re").S)
@@ -512,6 +640,12 @@ def run(tier, seed):
         "at-rule) printed as SCSS and compiled in {expanded,compressed} x {charset on,off}; grass text compared byte for "
         "byte with the model. A case is distinct by (tree, style, charset) and non-trivial when the tree reaches a "
         "branch beyond 'one visible rule with declarations' (see histogram tree:*). "
+        "BYTES: on every tie case grass's output bytes are compared with serializeB (modelled UTF-8 encoder of the text + "
+        "byte-level finish); the generator's non-ASCII letter is respelled as 2-, 3-, 4-byte characters and combining "
+        "sequences in every position it occurs (histogram bytes:*); the driver re-checks validUtf8 / charsetOkB on those bytes; "
+        "byte-level write_media_query (queryOutB incl. the '(not ' slice on multi-byte conditions) is compared with grass on "
+        "generated queries (histogram media-query-bytes:*); in the DIRECT part validUtf8 and charsetOkB are evaluated by the "
+        "driver on the raw bytes of every output. "
         "READER: for trees with the guard treeReadable (flag computed by the driver; histogram tie:treeReadable=…), grass's "
         "expanded output is recompiled by grass as CSS and both texts are read by the Lean reader readTree "
         "(C05_read_roundtrip / C05_fixed_point_model): same tree required, with and without charset header. "
@@ -527,7 +661,9 @@ def run(tier, seed):
     ck.assumptions = [
         "grass output observed as the runner's UTF-8 `css` string; reader = tools/cssread.py (independent of grass and of the model)",
         "comment columns: generated comments start after ASCII-only indentation (codemap columns = characters)",
-        "from_utf8_unchecked safety is argued (buffer extended only with whole &str / ASCII bytes), not proved",
+        "from_utf8_unchecked: proved for the model (C05_output_valid_utf8: encoder + byte-level finish + the '(not ' slice); "
+        "the writers that only append whole &str / ASCII bytes are covered by the append homomorphism of the encoder, not re-modelled on bytes",
+        "grass's bytes are observed as the UTF-8 encoding of the runner's JSON `css` string (the runner has no raw-byte field)",
     ]
     ck.do_prove(cores=("ser",))
     if not ck.do_build_runner():
@@ -537,6 +673,7 @@ def run(tier, seed):
     log(f"[C05] proof+build done at {round(__import__('time').time() - ck.t0)}s")
     tcases = gen_tie_cases(ck, n_tie)
     tie(ck, pool, tcases)
+    media_query_bytes(ck, pool, 400 if tier == "quick" else 4000)
     log(f"[C05] tie: {len(tcases)} trees, disagreements={ck.cov['model_disagreements']}")
     fails = []
     fails += string_probes(ck, pool, 2000 if tier == "quick" else 30000)
